@@ -176,7 +176,7 @@ Reconcile(n, E) == DoAdds(DoRems([d2k |-> n.d2k, k2l |-> n.k2l, sl |-> {}], E.re
 \* rebuild_structure, the capacity decision and the positions it will visit
 Geometry(P, n, a) ==
     LET live    == Len(a.d2k)
-        rebuilt == a.sl # {} \/ ~n.published
+        rebuilt == a.sl # {} \/ ~n.published \/ ~n.primed      \* the first reconcile is a full one and always counts as structural
         newcap  == Max2(Max2(n.cap, IF P.hasZero /\ Fault # "nomincap" THEN 2 ELSE 0), IF live > 0 THEN BitCeil(live) ELSE 0)
         bank    == rebuilt /\ newcap # n.cap
         cap1    == IF rebuilt THEN newcap ELSE n.cap
@@ -224,8 +224,9 @@ Outcome(P, n, E, a, g, s, b, fin, res) ==
     [n |-> [d2k |-> a.d2k, k2l |-> a.k2l, cap |-> g.cap, ex |-> s.ex, bl |-> b.bl, br |-> b.br, cv |-> fin.cv,
             sch |-> fin.sch, pub |-> b.pub, primed |-> TRUE, published |-> (n.published \/ g.rebuilt)],
      res |-> res,
-     \* the forwarding output ticks when it is re-pointed to a source that has a value, or its source ticks
-     tick |-> \/ (b.pub # n.pub /\ res # NoVal)
+     \* the forwarding output ticks when it is re-pointed to a source that has a value, when it loses its source (the
+     \* invalidation is a tick), or when its source ticks
+     tick |-> \/ (b.pub # n.pub /\ (res # NoVal \/ b.pub = Unbound))
               \/ (b.pub[1] = "K" /\ b.pub[2] \in E.mods)
               \/ (b.pub[1] = "N" /\ b.pub[2] \in fin.wrote),
      grew |-> g.bank,
